@@ -26,6 +26,7 @@ func init() {
 			runLock(c, "C11-LRU")
 			runGlobalMapAlias(c, "C11-GLOBAL")
 			base(c, "ALIAS", "LRU")
+			importRules(c, "C12", runC12Input, "C11-INPUT", "a rule set or function table handed in by a caller is shared by every call that uses it (package-level tables are the common case): the library never writes into it (rule C12-INPUT) — a merge into the caller's map is an unsynchronised map write under concurrent validations and changes what the other calls validate with", 2, nil)
 			importRules(c, "C08", runC08, "C11-CACHE", "entries of the shared type cache are complete when published, never written afterwards, and stored under everything they were computed from (rules C08-PUBLISH, C08-COPY, C08-KEY): concurrent validations of one type read the same immutable entry, and two concurrent callers that asked for different tag names never share one — otherwise whoever fills the cold entry first decides the rules of the other", 3, ruleIn("C08-PUBLISH", "C08-COPY", "C08-KEY"))
 		},
 	})
